@@ -4,6 +4,7 @@ package composite
 
 import (
 	"fmt"
+	"sync/atomic"
 	"testing"
 
 	sim "metacontroller/pkg/verifsim"
@@ -17,12 +18,18 @@ type c08Case struct {
 	Cfg        rolloutCfg `json:"cfg"`
 	SecondEdit int        `json:"secondEditAfterSyncs"` // -1: none
 	Edit       string     `json:"edit,omitempty"`       // "" = template change; scale-down, scale-up, template+scale-down, template+scale-up
+	// FailRevUpdate k > 0: the k-th ControllerRevision update after the edit is refused once (500); the
+	// failed sync is retried and the rollout still completes within the bound
+	FailRevUpdate int `json:"failRevisionUpdate,omitempty"`
 }
 
 func (c c08Case) id() string {
 	id := fmt.Sprintf("c08-%s-%s-n%d-%s-fp%v-gs%v-cl%v-e%d", lower(c.Cfg.Kind), c.Cfg.Method, c.Cfg.N, c.Cfg.StatusCheck, c.Cfg.FieldPaths, c.Cfg.GenSel, c.Cfg.Cluster, c.SecondEdit)
 	if c.Edit != "" {
 		id += "-" + c.Edit
+	}
+	if c.FailRevUpdate > 0 {
+		id += fmt.Sprintf("-failrev%d", c.FailRevUpdate)
 	}
 	return id
 }
@@ -47,6 +54,15 @@ func TestVerif_C08_Progress(t *testing.T) {
 									cases = append(cases, c08Case{Cfg: cfg, SecondEdit: -1, Edit: ed})
 									if sim.Thorough() || ed == "template+scale-down" {
 										cases = append(cases, c08Case{Cfg: cfg, SecondEdit: 2, Edit: ed})
+									}
+								}
+							}
+							if n >= 2 && n <= 3 && check == "" {
+								// one transient failure of a revision write during the rollout
+								for k := 1; k <= sim.Pick(3, 6); k++ {
+									cases = append(cases, c08Case{Cfg: cfg, SecondEdit: -1, FailRevUpdate: k})
+									if sim.Thorough() {
+										cases = append(cases, c08Case{Cfg: cfg, SecondEdit: 2, FailRevUpdate: k})
 									}
 								}
 							}
@@ -158,6 +174,15 @@ func runC08(t *testing.T, c c08Case) {
 			return false
 		}
 		return true
+	}
+	if c.FailRevUpdate > 0 {
+		var revUpdates int32
+		ro.r.w.sim.SetFault(func(ri *sim.ReqInfo) *sim.Fault {
+			if ri.GVR.Resource == "controllerrevisions" && ri.Verb == "update" && int(atomic.AddInt32(&revUpdates, 1)) == c.FailRevUpdate {
+				return &sim.Fault{Code: 500}
+			}
+			return nil
+		})
 	}
 	switch c.Edit {
 	case "":
